@@ -164,6 +164,11 @@ func c05Gen(c *Ctx) {
 		case 2:
 			units = trieBoundary
 			fam = "random-boundary-runes"
+		case 3:
+			if r.Intn(2) == 0 {
+				units = trieOverlong
+				fam = "random-rejected-lead-bytes"
+			}
 		}
 		ps := randPatternSet(r, units, 8, 5)
 		var text string
